@@ -399,6 +399,7 @@ type vDialEv struct {
 }
 
 type vdialer struct {
+	maxPayload  int  // MaxPayloadLen of every client handed out
 	ignoreCtx   bool // the held dial does not end when its context does
 	stallWrites bool // every transport handed out blocks in Write from the start (a peer that accepts the connection and reads nothing)
 	lockNext    bool // the next client handed out has its mu read-locked by the harness
@@ -516,7 +517,7 @@ func (d *vdialer) DialContext(ctx context.Context) (*BaseClient, error) {
 	if d.unsafe {
 		c.mc.unsafeMode, c.mc.yieldEvery = true, 2
 	}
-	cli := &BaseClient{Transport: c.mc.asTransport()}
+	cli := &BaseClient{Transport: c.mc.asTransport(), MaxPayloadLen: d.maxPayload}
 	cli.ConnState = func(s ConnState, err error) {
 		note := s.String()
 		if err != nil {
